@@ -3,6 +3,7 @@ package ledger
 import (
 	"encoding/binary"
 	"fmt"
+	"os"
 	"sort"
 	"time"
 
@@ -23,6 +24,8 @@ import (
 
 const srvJoinBoundMS = 15 * blockTimeMS
 
+var srvStrictWire = os.Getenv("VERIF_SRV_STRICTWIRE") != ""
+
 // check runs after every driver event.
 func (s *srvSim) check() {
 	r := s.r
@@ -39,7 +42,17 @@ func (s *srvSim) check() {
 		v.seenRej = len(v.lc.rejected)
 		appr := v.lc.approved[v.seenAppr:]
 		v.seenAppr = len(v.lc.approved)
+		undec := v.lc.undecodable[v.seenUndec:]
+		v.seenUndec = len(v.lc.undecodable)
 		v.lc.mu.Unlock()
+		if len(undec) > 0 {
+			// not part of the C19/C20/C07 statements: counted; raised only on request (VERIF_SRV_STRICTWIRE=1)
+			r.out.Probes["undecodable_packet_between_honest_nodes"] += len(undec)
+			if srvStrictWire {
+				r.violate(sim.Violatef("srv-undecodable-packet", "", "%s dropped a peer because a message of that (honest, unmodified) peer does not decode; the transport delivers the written bytes unchanged: %s", v.name(), undec[0]))
+				return
+			}
+		}
 		if len(rej) > 0 {
 			who := "a block relayed by a peer"
 			if v.validator() {
@@ -390,7 +403,9 @@ func (s *srvSim) finalSrv() {
 		for _, k := range ks {
 			r.out.Probes[k] += v.lc.info[k]
 		}
+		for k, n := range v.lc.reasons {
+			r.out.Probes["disconnect/"+k] += n
+		}
 		v.lc.mu.Unlock()
 	}
 }
-
